@@ -1,7 +1,311 @@
-(* C17_Props.v — property C17 stated over the small-step model of C17_Model.v. *)
-From Gogu Require Import Base C17_Model C17_Proofs.
+(* C17_Props.v — property C17 stated over the small-step model of C17_Model.v.
+
+   "For any number of goroutines calling Memoize with the same key, at no instant are two
+    executions of the supplied function for that key in progress; every caller receives the
+    value (or error) produced by an execution that overlapped or preceded its call, and
+    callers that joined the same execution receive the same value.  Once a successful value
+    is cached and until it expires, Memoize returns it without invoking the function; an
+    error result is returned to the callers and is not cached.  Different keys do not block
+    or contaminate each other."
+
+   All theorems quantify over EVERY schedule of the model: [reachable s] means
+   [exists def tr, run (init def) tr = Some s] for an arbitrary label sequence tr (any
+   number of threads = calls of Memoize, any keys, any results of fn, any clock readings).
+   Vocabulary (C17_Proofs / C17_Proofs2):
+     owner s t k       t is executing fn for k (Leading k) or fn has returned and the call is
+                       not yet removed from the singleflight group (Finishing k _)
+     led s l k         l created a call for k (is owner, or has returned as a leader)
+     executed s l k r  l ran fn for k to the end and fn returned r
+     Ret k r src c     the call returned r; ghost: the execution src it came from, c = served
+                       by the cache
+     s_started t, s_began l, s_endat l, s_doneat l   logical time (step number) of: the call of
+                       Memoize by t / fn entered by leader l / fn returned / call removed from
+                       the group.  Stamps are write-once (C17_stamps_stable). *)
+From Gogu Require Import Base C17_Model C17_Proofs C17_Proofs2 C17_Proofs3.
 Local Open Scope Z_scope.
 
-Theorem C17_step_time : forall s a s', step s a = Some s' -> s_time s' = S (s_time s).
-Proof. exact step_time. Qed.
-Print Assumptions C17_step_time.
+(* ---- clause 1: the invariant *)
+
+Theorem C17_inv_step : forall s a s', Inv s -> step s a = Some s' -> Inv s'.
+Proof. exact inv_step. Qed.
+Print Assumptions C17_inv_step.
+
+Theorem C17_invariant : forall s, reachable s -> Inv s.
+Proof. exact inv_reachable. Qed.
+Print Assumptions C17_invariant.
+
+Theorem C17_stamps_stable : forall s a s', Inv s -> step s a = Some s' ->
+  (forall t, s_thr s t <> Idle -> s_started s' t = s_started s t) /\
+  (forall l k, led s l k -> s_began s' l = s_began s l /\ led s' l k) /\
+  (forall l r, s_res s l = Some r -> s_res s' l = Some r /\ s_endat s' l = s_endat s l) /\
+  (forall l d, s_doneat s l = Some d -> s_doneat s' l = Some d) /\
+  (forall l r, s_done s l = Some r -> s_done s' l = Some r) /\
+  (forall t k r src c, s_thr s t = Ret k r src c -> s_thr s' t = Ret k r src c).
+Proof. exact stamps_stable. Qed.
+Print Assumptions C17_stamps_stable.
+
+(* ---- clause 2: at no instant two executions of fn for one key *)
+
+Theorem C17_one_owner_per_key : forall s, reachable s -> forall t1 t2 k,
+  (s_thr s t1 = Leading k \/ exists r, s_thr s t1 = Finishing k r) ->
+  (s_thr s t2 = Leading k \/ exists r, s_thr s t2 = Finishing k r) -> t1 = t2.
+Proof. intros s Hr. exact (owner_unique s (inv_reachable s Hr)). Qed.
+Print Assumptions C17_one_owner_per_key.
+
+Theorem C17_one_execution_per_key : forall s, reachable s -> forall t1 t2 k,
+  s_thr s t1 = Leading k -> s_thr s t2 = Leading k -> t1 = t2.
+Proof. exact executing_unique. Qed.
+Print Assumptions C17_one_execution_per_key.
+
+(* the invocation counter moves exactly when a thread enters fn, by one, and only when no
+   thread owns the key *)
+Theorem C17_new_execution_only_when_none : forall s a s' k, Inv s -> step s a = Some s' ->
+  (s_calls s' k = s_calls s k /\ forall t, s_thr s' t = Leading k -> s_thr s t = Leading k) \/
+  (exists t, a = LEnter t /\ s_thr s t = Looked k /\ s_thr s' t = Leading k /\
+             s_calls s' k = S (s_calls s k) /\ (forall t', ~ owner s t' k) /\
+             forall t', t' <> t -> s_thr s' t' = s_thr s t').
+Proof. exact calls_step. Qed.
+Print Assumptions C17_new_execution_only_when_none.
+
+(* in logical time: the in-flight periods of two executions of one key are disjoint *)
+Theorem C17_executions_disjoint_in_time : forall s, reachable s ->
+  forall l1 l2 k, l1 <> l2 -> led s l1 k -> led s l2 k ->
+    (exists d, s_doneat s l1 = Some d /\ (d < s_began s l2)%nat) \/
+    (exists d, s_doneat s l2 = Some d /\ (d < s_began s l1)%nat).
+Proof. exact excl_reachable. Qed.
+Print Assumptions C17_executions_disjoint_in_time.
+
+(* ---- clause 3: every result comes from an execution that overlapped or preceded the call *)
+
+Theorem C17_result_from_overlapping_or_preceding_execution :
+  forall s, reachable s -> forall t k r src cached,
+  s_thr s t = Ret k r src cached ->
+  s_res s src = Some r /\ executed s src k r /\
+  (s_began s src < s_endat s src < s_time s)%nat /\
+  (cached = false ->
+     s_done s src = Some r /\
+     exists d, s_doneat s src = Some d /\ (s_endat s src < d < s_time s)%nat /\
+               (s_started s t < d)%nat /\
+               (src = t -> (s_started s t < s_began s t)%nat)) /\
+  (cached = true ->
+     src <> t /\ (exists v, r = RVal v) /\ (s_endat s src < s_started s t)%nat).
+Proof. exact ret_provenance. Qed.
+Print Assumptions C17_result_from_overlapping_or_preceding_execution.
+
+Theorem C17_return_step : forall s a s' t k r src cached, reachable s -> step s a = Some s' ->
+  s_thr s' t = Ret k r src cached -> s_thr s t <> Ret k r src cached ->
+  label_tid a = t /\
+  (cached = false -> exists d, s_doneat s' src = Some d /\ (s_started s t < d <= s_time s)%nat) /\
+  (cached = true -> exists now v e, a = LStart t k now /\ r = RVal v /\
+                    s_cache s k = Some (v, e, src) /\ live now e = true /\
+                    s_calls s' = s_calls s /\ s_started s' t = s_time s).
+Proof. exact return_step. Qed.
+Print Assumptions C17_return_step.
+
+(* ---- clause 4: callers served by the same execution receive the same result *)
+
+Theorem C17_joiners_same_value : forall s, reachable s -> forall t1 t2 k1 k2 r1 r2 src c1 c2,
+  s_thr s t1 = Ret k1 r1 src c1 -> s_thr s t2 = Ret k2 r2 src c2 -> r1 = r2 /\ k1 = k2.
+Proof. exact same_src_same_result. Qed.
+Print Assumptions C17_joiners_same_value.
+
+Theorem C17_joiner_gets_leader_result : forall s a s' t k l, reachable s ->
+  s_thr s t = Joined k l -> step s a = Some s' -> label_tid a = t ->
+  exists r, a = LWake t /\ s_thr s' t = Ret k r l false /\ s_res s l = Some r /\
+            s_thr s l = Ret k r l false.
+Proof. exact joiner_gets_leader_result. Qed.
+Print Assumptions C17_joiner_gets_leader_result.
+
+(* ---- clause 5: a live cached value is served without invoking fn *)
+
+Theorem C17_cached_hit_step : forall s t k now v e l,
+  s_thr s t = Idle -> s_cache s k = Some (v, e, l) -> live now e = true ->
+  exists s', step s (LStart t k now) = Some s' /\
+             s_thr s' t = Ret k (RVal v) l true /\
+             s_calls s' = s_calls s /\ s_cache s' = s_cache s /\ s_group s' = s_group s /\
+             s_done s' = s_done s /\ s_res s' = s_res s /\
+             forall t', t' <> t -> s_thr s' t' = s_thr s t'.
+Proof. exact cached_hit_step. Qed.
+Print Assumptions C17_cached_hit_step.
+
+(* from ANY state whose cache holds (v, e) for k, along ANY continuation tr in which the
+   clock readings that are compared with a deadline by steps concerning k do not pass e
+   ([reads_live]): the entry stays; every call that starts in the continuation on k
+   returns v from the cache; whoever executes fn for k had already missed the cache
+   before (was [Looked k]) or was already executing; and if no caller is between its
+   cache miss and group.Do, fn is not invoked for k at all. *)
+Theorem C17_cached_value_served_without_call : forall s k v e l tr s',
+  s_cache s k = Some (v, e, l) -> run s tr = Some s' -> reads_live k e s tr ->
+  s_cache s' k = Some (v, e, l) /\
+  (forall t, s_thr s t = Idle -> thr_key (s_thr s' t) = Some k ->
+             s_thr s' t = Ret k (RVal v) l true) /\
+  (forall t, owner s' t k -> s_thr s t = Looked k \/ owner s t k) /\
+  ((forall t, s_thr s t <> Looked k) -> s_calls s' k = s_calls s k).
+Proof. exact cached_value_served. Qed.
+Print Assumptions C17_cached_value_served_without_call.
+
+(* quantitative form: with L any duplicate-free list containing the callers that are between
+   their cache miss and group.Do at s ([Looked k]), the invocations of fn for k in the
+   continuation plus the callers of L still in that window never exceed those at s; hence at
+   most [length L] new invocations *)
+Theorem C17_executions_after_store_bounded : forall s k v e l tr s' L,
+  s_cache s k = Some (v, e, l) -> run s tr = Some s' -> reads_live k e s tr ->
+  NoDup L -> (forall t, s_thr s t = Looked k -> In t L) ->
+  (s_calls s' k + nlooked s' k L <= s_calls s k + nlooked s k L)%nat /\
+  (s_calls s' k <= s_calls s k + length L)%nat.
+Proof. exact executions_after_store_bounded. Qed.
+Print Assumptions C17_executions_after_store_bounded.
+
+(* ---- clause 6: an error is returned to the callers and never cached *)
+
+Theorem C17_cache_holds_only_successes : forall s, reachable s -> forall k v e l,
+  s_cache s k = Some (v, e, l) -> s_res s l = Some (RVal v) /\ executed s l k (RVal v).
+Proof. exact cache_holds_successes. Qed.
+Print Assumptions C17_cache_holds_only_successes.
+
+Theorem C17_errors_not_cached : forall s t x now1 now2 s',
+  step s (LFnEnd t (RErr x) now1 now2) = Some s' ->
+  s_cache s' = s_cache s /\ exists k, s_thr s t = Leading k /\ s_thr s' t = Finishing k (RErr x).
+Proof. exact error_not_stored. Qed.
+Print Assumptions C17_errors_not_cached.
+
+Theorem C17_cache_written_only_by_successful_leader : forall s a s' k,
+  step s a = Some s' -> s_cache s' k <> s_cache s k ->
+  exists t v now1 now2, a = LFnEnd t (RVal v) now1 now2 /\ s_thr s t = Leading k /\
+    cache_get s k now1 = None /\ s_cache s' k = Some (v, deadline (s_def s) now2, t).
+Proof. exact cache_write_step. Qed.
+Print Assumptions C17_cache_written_only_by_successful_leader.
+
+Theorem C17_error_returned_uncached : forall s, reachable s -> forall t k x src c,
+  s_thr s t = Ret k (RErr x) src c -> c = false /\ s_res s src = Some (RErr x).
+Proof. exact error_returned. Qed.
+Print Assumptions C17_error_returned_uncached.
+
+(* ---- clause 7: different keys do not block or contaminate each other *)
+
+Theorem C17_enabled_label_has_key : forall s a s', step s a = Some s' ->
+  exists k, label_key s a = Some k.
+Proof. exact enabled_has_key. Qed.
+Print Assumptions C17_enabled_label_has_key.
+
+Theorem C17_keys_independent_frame : forall s a s' k, step s a = Some s' -> label_key s a = Some k ->
+  forall k', k' <> k ->
+    s_cache s' k' = s_cache s k' /\ s_group s' k' = s_group s k' /\ s_calls s' k' = s_calls s k'.
+Proof. exact frame_other_keys. Qed.
+Print Assumptions C17_keys_independent_frame.
+
+Theorem C17_threads_frame : forall s a s', step s a = Some s' ->
+  forall t', t' <> label_tid a ->
+    s_thr s' t' = s_thr s t' /\ s_res s' t' = s_res s t' /\ s_done s' t' = s_done s t'.
+Proof. exact frame_other_threads. Qed.
+Print Assumptions C17_threads_frame.
+
+(* two enabled steps of different threads on different keys: neither disables the other (no
+   blocking across keys) and both orders give the same state up to the ghost stamps *)
+Theorem C17_keys_independent_commute : forall s a b sa sb, Inv s ->
+  step s a = Some sa -> step s b = Some sb ->
+  label_tid a <> label_tid b -> label_key s a <> label_key s b ->
+  exists sab sba, step sa b = Some sab /\ step sb a = Some sba /\ sim sab sba.
+Proof. exact diamond. Qed.
+Print Assumptions C17_keys_independent_commute.
+
+(* who can be blocked: every call that has not returned has an enabled step, except a joiner
+   whose call is still owned -- by a thread of the SAME key, and an owner is never blocked *)
+Theorem C17_only_own_key_blocks : forall s, reachable s -> forall t,
+  match s_thr s t with
+  | Idle => forall k now, step s (LStart t k now) <> None
+  | Looked _ => step s (LEnter t) <> None
+  | Leading _ => forall r now1 now2, step s (LFnEnd t r now1 now2) <> None
+  | Finishing _ _ => step s (LDone t) <> None
+  | Joined k l => step s (LWake t) <> None \/ (owner s l k /\ s_group s k = Some l)
+  | Ret _ _ _ _ => True
+  end.
+Proof. exact progress. Qed.
+Print Assumptions C17_only_own_key_blocks.
+
+(* ---- non-vacuity: concrete schedules evaluated by the kernel *)
+
+Definition c0 : tid := 0%nat.  Definition c1 : tid := 1%nat.
+Definition c2 : tid := 2%nat.  Definition c3 : tid := 3%nat.
+
+(* default expiry 1000; callers 0 and 1 on key 7: 0 leads, 1 joins the same execution, fn
+   returns 42, both get it from execution 0 (not cached); caller 2 then hits the cache *)
+Definition ex_tr : list label :=
+  [LStart c0 7 100; LEnter c0; LStart c1 7 101; LEnter c1; LFnEnd c0 (RVal 42) 102 103;
+   LDone c0; LWake c1; LStart c2 7 104].
+
+Definition ex_view (s : state) :=
+  (s_thr s c0, s_thr s c1, s_thr s c2, s_calls s 7, s_cache s 7, s_group s 7).
+
+Example C17_ex_join_then_cached_hit :
+  option_map ex_view (run (init 1000) ex_tr) =
+  Some (Ret 7 (RVal 42) c0 false, Ret 7 (RVal 42) c0 false, Ret 7 (RVal 42) c0 true,
+        1%nat, Some (42, 1103, c0), None).
+Proof. vm_compute. reflexivity. Qed.
+
+(* the state in the middle of that schedule has an owner and a joiner (hypotheses of the
+   clause-2 and clause-4 theorems) *)
+Example C17_ex_midway :
+  option_map (fun s => (s_thr s c0, s_thr s c1, s_group s 7, s_calls s 7))
+             (run (init 1000) (firstn 4 ex_tr)) =
+  Some (Leading 7, Joined 7 c0, Some c0, 1%nat).
+Proof. vm_compute. reflexivity. Qed.
+
+(* hypotheses of C17_cached_value_served_without_call: after the store (6 steps) the cache
+   holds (42, 1103); the continuation "caller 2 starts at clock 104, caller 3 at 1103" reads
+   live clocks; a read at 1104 would not be live, and then fn runs again *)
+Example C17_ex_served_hyps :
+  match run (init 1000) (firstn 6 ex_tr) with
+  | Some s => s_cache s 7 = Some (42, 1103, c0) /\
+              reads_live 7 1103 s [LWake c1; LStart c2 7 104; LStart c3 7 1103]
+  | None => False
+  end.
+Proof. vm_compute. repeat split; try discriminate; repeat constructor. Qed.
+
+Example C17_ex_expired_entry_recomputed :
+  option_map (fun s => (s_thr s c3, s_calls s 7))
+             (run (init 1000) (ex_tr ++ [LStart c3 7 1104; LEnter c3])) =
+  Some (Leading 7, 2%nat).
+Proof. vm_compute. reflexivity. Qed.
+
+(* an error is delivered to leader and joiner and leaves the cache empty; the next caller
+   executes fn again *)
+Example C17_ex_error_not_cached :
+  option_map (fun s => (s_thr s c0, s_thr s c1, s_thr s c2, s_cache s 7, s_calls s 7))
+             (run (init 1000)
+                  [LStart c0 7 100; LEnter c0; LStart c1 7 101; LEnter c1; LFnEnd c0 (RErr 5) 102 103;
+                   LDone c0; LWake c1; LStart c2 7 104; LEnter c2]) =
+  Some (Ret 7 (RErr 5) c0 false, Ret 7 (RErr 5) c0 false, Leading 7, None, 2%nat).
+Proof. vm_compute. reflexivity. Qed.
+
+(* hypotheses of C17_keys_independent_commute: in the state after [LStart c0 7; LEnter c0;
+   LStart c1 8] the labels LFnEnd c0 (key 7) and LEnter c1 (key 8) are both enabled, belong to
+   different threads and concern different keys *)
+Example C17_ex_commute_hyps :
+  match run (init 1000) [LStart c0 7 100; LEnter c0; LStart c1 8 100] with
+  | Some s => step s (LFnEnd c0 (RVal 1) 101 101) <> None /\ step s (LEnter c1) <> None /\
+              label_key s (LFnEnd c0 (RVal 1) 101 101) = Some 7 /\ label_key s (LEnter c1) = Some 8
+  | None => False
+  end.
+Proof. vm_compute. repeat split; discriminate. Qed.
+
+(* the stale-miss race that the hypothesis [s_thr s t = Idle] of clause 5 excludes is real in
+   the model (and in the code): a caller that missed the cache BEFORE the store and enters
+   group.Do after the call was removed executes fn a second time *)
+Example C17_ex_stale_miss_recomputes :
+  option_map (fun s => (s_thr s c1, s_calls s 7, s_cache s 7))
+             (run (init 1000)
+                  [LStart c0 7 100; LStart c1 7 100; LEnter c0; LFnEnd c0 (RVal 42) 102 103; LDone c0;
+                   LEnter c1]) =
+  Some (Leading 7, 2%nat, Some (42, 1103, c0)).
+Proof. vm_compute. reflexivity. Qed.
+
+(* hypotheses of C17_executions_after_store_bounded in that race: after the store, caller 1
+   is the only one in the window, L = [c1]; the bound 1 + 1 is attained *)
+Example C17_ex_bound_hyps :
+  match run (init 1000) [LStart c0 7 100; LStart c1 7 100; LEnter c0; LFnEnd c0 (RVal 42) 102 103] with
+  | Some s => s_cache s 7 = Some (42, 1103, c0) /\ s_thr s c1 = Looked 7 /\ s_calls s 7 = 1%nat /\
+              nlooked s 7 [c1] = 1%nat /\ reads_live 7 1103 s [LDone c0; LEnter c1]
+  | None => False
+  end.
+Proof. vm_compute. repeat split; try discriminate; repeat constructor. Qed.
